@@ -41,6 +41,11 @@ def generic_params(fields):
     return out
 
 
+def tagnum(t):
+    """-2 / -3 code tag numbers beyond 32 bits (see spec/Derive.tla!TagNum)."""
+    return {-2: 4294967296, -3: 18446744073709551615}.get(t, t)
+
+
 BORROW_TYS = ("bstr", "bslice", "bu8", "cowb", "cown", "cowbu8")
 
 
@@ -58,8 +63,8 @@ def field_attr(f, rng):
     if f["ty"] in ("bu8", "cowb", "cowbu8"):
         letter = "b"
     extra = []
-    if f["tag"] >= 0:
-        extra.append(f"tag({f['tag']})")
+    if f["tag"] != -1:
+        extra.append(f"tag({tagnum(f['tag'])})")
     # a codec can be named as a module (`with`) or function by function: the spelling must not influence the bytes
     if f["ty"] in ("bytes", "bu8", "cowbu8"):
         if rng.random() < 0.5:
@@ -140,8 +145,8 @@ def type_attrs(enc, tag, extra=(), rng=None):
         a.append("#[cbor(map)]")
     elif enc == "array" and rng is not None and rng.random() < 0.5:
         a.append("#[cbor(array)]")
-    if tag is not None and tag >= 0:
-        a.append(f"#[cbor(tag({tag}))]")
+    if tag is not None and tag != -1:
+        a.append(f"#[cbor(tag({tagnum(tag)}))]")
     a.extend(extra)
     return " ".join(a)
 
@@ -182,8 +187,8 @@ def gen_type(name, s, seed):
         if not s["index_only"]:
             if va["enc"] != s["enc"]:
                 attrs.append("#[cbor(map)]" if va["enc"] == "map" else "#[cbor(array)]")
-            if va["tag"] >= 0:
-                attrs.append(f"#[cbor(tag({va['tag']}))]")
+            if va["tag"] != -1:
+                attrs.append(f"#[cbor(tag({tagnum(va['tag'])}))]")
         if va["shape"] == "unit":
             vs.append(f"    {' '.join(attrs)} {vn}")
         else:
